@@ -374,12 +374,9 @@ class IrToPythonCompiler:
         for ins in block:
             self.generate_instruction(ins, block)
 
-        if not self._shape_style:
-            self.fill_phis(block)
-
-    def fill_phis(self, block):
-        # Generate eventual phi fill code:
-        phis = [p for s in block.successors for p in s.phis]
+    def fill_phis(self, block, target):
+        # Generate eventual phi fill code for the jump from block to target:
+        phis = target.phis
         if phis:
             phi_names = ", ".join(p.name for p in phis)
             value_names = ", ".join(p.inputs[block].name for p in phis)
@@ -389,18 +386,19 @@ class IrToPythonCompiler:
         self.emit(f"rt.free({self.stack_size})")
         self.stack_size = 0
 
-    def emit_jump(self, target: ir.Block):
+    def emit_jump(self, block, target: ir.Block):
         """Perform a jump in block mode."""
         assert isinstance(target, ir.Block)
+        self.fill_phis(block, target)
         self.emit("_irpy_prev_block = _irpy_current_block")
         self.emit(f'_irpy_current_block = "{target.name}"')
 
     def generate_instruction(self, ins, block):
         """Generate python code for this instruction"""
         if isinstance(ins, ir.CJump):
-            self.gen_cjump(ins)
+            self.gen_cjump(ins, block)
         elif isinstance(ins, ir.Jump):
-            self.gen_jump(ins)
+            self.gen_jump(ins, block)
         elif isinstance(ins, ir.Alloc):
             self.emit(f"{ins.name} = rt.alloca({ins.amount})")
             self.stack_size += ins.amount
@@ -452,7 +450,7 @@ class IrToPythonCompiler:
             self.emit(f"not implemented: {ins}")
             raise NotImplementedError(str(type(ins)))
 
-    def gen_cjump(self, ins):
+    def gen_cjump(self, ins, block):
         a = self.fetch_value(ins.a)
         b = self.fetch_value(ins.b)
         if self._shape_style:
@@ -462,18 +460,18 @@ class IrToPythonCompiler:
         else:
             self.emit(f"if {a} {ins.cond} {b}:")
             with self.indented():
-                self.emit_jump(ins.lab_yes)
+                self.emit_jump(block, ins.lab_yes)
             self.emit("else:")
             with self.indented():
-                self.emit_jump(ins.lab_no)
+                self.emit_jump(block, ins.lab_no)
 
-    def gen_jump(self, ins):
+    def gen_jump(self, ins, block):
         if self._shape_style:
             raise NotImplementedError("TODO")
             # self.fill_phis(block)
             self.emit("pass")
         else:
-            self.emit_jump(ins.target)
+            self.emit_jump(block, ins.target)
 
     def gen_cast(self, ins):
         if ins.ty.is_integer:
